@@ -230,6 +230,7 @@ def _search_target(file, cls, inputs, **cfg):
     cfg.setdefault("chosen_attr", None); cfg.setdefault("chosen_range_len", None); cfg.setdefault("own_solver", False)
     cfg.setdefault("star_kwargs", False); cfg.setdefault("presolved", None); cfg.setdefault("objective", None); cfg.setdefault("enum", None)
     cfg.setdefault("optional_locals", []); cfg.setdefault("truthy_attrs", {})
+    cfg.setdefault("aux_calls", {}); cfg.setdefault("pre_for", {}); cfg.setdefault("presolved_models", []); cfg.setdefault("pure_calls", [])
     return dict(file=file, cls=cls, func="solve", params=[SELFOBJ], defaults=[], ret=BOOL, search=cfg,
                 selfobj=dict(inputs=_S_IN + [(n, INT) if isinstance(n, str) else n for n in inputs], outputs=_S_OUT, calls={}))
 TARGETS["search_mpc"] = _search_target("flowpaths/minpathcover.py", "MinPathCover", ["lb", "nedges"],
@@ -252,6 +253,35 @@ TARGETS["search_npo"] = _search_target("flowpaths/numpathsoptimization.py", "Num
     enum=dict(local=None, cls="NumPathsOptimization", names=["solved_status_name", "timeout_status_name", "unbounded_status_name", "infeasible_status_name"]),
     optional_locals=["*"], truthy_attrs={"stop_on_delta_abs": "o_abs_on", "stop_on_delta_rel": "o_rel_on"},
     solved_calls=["self.set_solved()"], chosen_attr="model")
+
+# MinFlowDecompCycles.solve: the MAIN LOOP only.  The auxiliary phases (the guessed-weights model, the lower bound with its nested MinGenSet search) are
+# calls whose effect is an input: how many solver invocations they made (aux_gw, aux_lb), the lower bound they left (lb), whether a solved guessed-weights
+# model is kept (gw_set) and how many walks its solution has (gw_paths).  The given-weights model taken for k stands for k.
+TARGETS["search_mfdc_main"] = _search_target("flowpaths/minflowdecompcycles.py", "MinFlowDecompCycles",
+    [("o_over", List(BOOL)), ("guessed", BOOL), "aux_gw", "aux_lb", "lb", "nedges", ("gw_set", BOOL), "gw_paths"],
+    model_ctors=["kflowdecompcycles.kFlowDecompCycles"], erase_attrs=["solve_time_start", "_solution", "solve_statistics", "solve_time_ilp_total"],
+    pure_calls=["self.G_internal.get_condensed_paths", "self.solve_statistics.get", "self._mingenset_model.solve_statistics.get"],
+    aux_calls={"self._solve_with_given_weights()": "aux_gw"}, pre_for={"self.get_lowerbound_k()": "aux_lb"},
+    presolved_models=["self._given_weights_model"],
+    texts={"self.get_lowerbound_k()": "lb", "self.G.number_of_edges()": "nedges",
+           "self.optimization_options.get('optimize_with_guessed_weights', MinFlowDecompCycles.optimize_with_given_weights)": "guessed",
+           "self._given_weights_model is not None and self._given_weights_model.is_solved()": "gw_set",
+           "len(self._given_weights_model.get_solution(remove_empty_walks=True)['walks'])": "gw_paths",
+           "self.solve_time_elapsed > self.time_limit": "=self.o_over[self.o_n]"},
+    solved_calls=["self.set_solved()"], chosen_attr="fd_model")
+
+# MinFlowDecomp.solve: the MAIN LOOP only, as for the cyclic class; in addition a kFlowDecomp that its constructor solved (greedy) makes no solver call: o_ext[k]
+TARGETS["search_mfd_main"] = _search_target("flowpaths/minflowdecomp.py", "MinFlowDecomp",
+    [("o_ext", List(BOOL)), ("guessed", BOOL), "aux_gw", "aux_lb", "lb", "nedges", ("gw_set", BOOL), "gw_paths"],
+    model_ctors=["kflowdecomp.kFlowDecomp"], presolved="o_ext", erase_attrs=["solve_time_start", "_solution", "solve_statistics"],
+    pure_calls=["self.G_internal.get_condensed_paths"],
+    aux_calls={"self._solve_with_given_weights()": "aux_gw"}, pre_for={"self.get_lowerbound_k()": "aux_lb"},
+    presolved_models=["self._given_weights_model"],
+    texts={"self.get_lowerbound_k()": "lb", "self.G.number_of_edges()": "nedges",
+           "self.optimization_options.get('optimize_with_guessed_weights', MinFlowDecomp.optimize_with_given_weights)": "guessed",
+           "self._given_weights_model is not None and self._given_weights_model.is_solved()": "gw_set",
+           "len(self._given_weights_model.get_solution(remove_empty_paths=True)['paths'])": "gw_paths"},
+    solved_calls=["self.set_solved()"], chosen_attr="fd_model")
 
 # a query of stDiGraph on data networkx computed (condensation): the expressions below are inputs of the model
 TARGETS["is_scc_edge"] = dict(file="flowpaths/stdigraph.py", cls="stDiGraph", func="is_scc_edge", params=[SELFOBJ, NODE, NODE], defaults=[], ret=BOOL,
@@ -303,6 +333,7 @@ def lower_search(fdef, cfg, me, repo, classdef=None):
     models = set(); txt = ast.unparse
     pure = {"time.perf_counter", "copy.deepcopy", "sorted", "round", "float", "int", "len", "range", "sum", "dict", "list", "id", "utils.fpid", me + ".solver.get_values"}
     if cfg["own_solver"]: pure.add(me + ".solver.get_model_status")
+    pure |= set(cfg["pure_calls"])
     enum = {}; enum_local = None
     if cfg["enum"]:         # a local that holds None or one of the class's status names: numbered (None = 0); the names must be distinct strings
         enum_local = cfg["enum"]["local"]; vals = {}
@@ -372,10 +403,16 @@ def lower_search(fdef, cfg, me, repo, classdef=None):
                 neg = isinstance(n.ops[0], ast.IsNot)
                 if n.left.id == enum_local:
                     return ast.copy_location(ast.Compare(left=n.left, ops=[ast.NotEq() if neg else ast.Eq()], comparators=[ast.Constant(value=0)]), n)
+                if n.left.id in optmodels:
+                    flag = ast.Name(id=n.left.id + "__set", ctx=ast.Load())
+                    return ast.copy_location(flag if neg else ast.UnaryOp(op=ast.Not(), operand=flag), n)
                 if n.left.id in optional:
                     flag = ast.Name(id=n.left.id + "__set", ctx=ast.Load())
                     return ast.copy_location(flag if neg else ast.UnaryOp(op=ast.Not(), operand=flag), n)
             return self.generic_visit(n)
+        def visit_BoolOp(self, n):
+            r = by_text(n)
+            return r if r is not None else self.generic_visit(n)
         def visit_Attribute(self, n):
             if txt(n) in enum: return ast.copy_location(ast.Constant(value=enum[txt(n)]), n)
             return self.generic_visit(n)
@@ -384,6 +421,8 @@ def lower_search(fdef, cfg, me, repo, classdef=None):
             if r is not None: return r
             if isinstance(n.func, ast.Attribute) and not n.args and not n.keywords and isinstance(n.func.value, ast.Name) and n.func.value.id in models:
                 m = n.func.value.id
+                if n.func.attr == "is_solved" and m in optmodels:
+                    return parse_expr(("(%s__pre or SELF.%s[%s] or SELF.o_last == 0)" % (m, cfg["presolved"], m)) if cfg["presolved"] else ("(%s__pre or SELF.o_last == 0)" % m), n)
                 if n.func.attr == "is_solved":
                     return parse_expr("(SELF.%s[%s] or SELF.o_last == 0)" % (cfg["presolved"], m) if cfg["presolved"] else "SELF.o_last == 0", n)
                 if n.func.attr == "get_objective_value" and cfg["objective"]:
@@ -414,6 +453,9 @@ def lower_search(fdef, cfg, me, repo, classdef=None):
             t = st.targets[0]
             if (target_attr(t) in cfg["erase_attrs"] or target_local(t) in erase_locals) and opaque_ok(st.value) \
                     and (not isinstance(t, ast.Subscript) or opaque_ok(t.slice)): return True
+        if isinstance(st, ast.AugAssign) and target_attr(st.target) in cfg["erase_attrs"] and opaque_ok(st.value): return True
+        if isinstance(st, ast.If) and not st.orelse and st.body and opaque_ok(st.test) and not any(isinstance(n, ast.Name) and n.id in models for n in ast.walk(st.test)) \
+                and not any(txt(n) in cfg["texts"] for n in ast.walk(st.test) if isinstance(n, ast.expr)) and all(erasable(b) for b in st.body): return True
         if isinstance(st, ast.Expr) and isinstance(st.value, ast.Call) and txt(st.value.func).startswith("utils.logger.") and opaque_ok(st.value): return True
         if isinstance(st, ast.Expr) and isinstance(st.value, ast.Call) and txt(st.value.func) in cfg["build_calls"] \
                 and all(opaque_ok(a) for a in st.value.args) and all(opaque_ok(k.value) for k in st.value.keywords): return True
@@ -462,6 +504,9 @@ def lower_search(fdef, cfg, me, repo, classdef=None):
     def reads(e, name):
         return any(isinstance(n, ast.Name) and n.id == name and isinstance(n.ctx, ast.Load) for n in ast.walk(e))
 
+    for v, rhs in assigns.items():
+        if any(isinstance(r, ast.Call) and txt(r.func) in cfg["model_ctors"] for r in rhs): models.add(v)
+    optmodels = {v for v in models if any(is_none_(r) for r in assigns[v])}      # a k-model local that is None until a model is built or taken
     late = set()        # k-model locals bound inside a loop: a read after the loop is an UnboundLocalError if the loop never bound them
     for loop in [n for n in ast.walk(fdef) if isinstance(n, (ast.For, ast.While))]:
         for n in ast.walk(loop):
@@ -469,8 +514,9 @@ def lower_search(fdef, cfg, me, repo, classdef=None):
                 late.add(n.targets[0].id)
     def n_loads(root, m): return sum(1 for n in ast.walk(root) if isinstance(n, ast.Name) and n.id == m and isinstance(n.ctx, ast.Load))
     top_loops = [st for st in fdef.body if isinstance(st, (ast.For, ast.While))]
-    late = {m for m in late if n_loads(fdef, m) > sum(n_loads(l, m) for l in top_loops)}      # only those that are read after / outside the loop
+    late = {m for m in late if m not in optmodels and n_loads(fdef, m) > sum(n_loads(l, m) for l in top_loops)}      # only those that are read after / outside the loop
 
+    loopvars = []
     def walk(stmts, known, in_loop=False):
         """known: optional locals known to hold a value here (inside the else of `if X is None`)"""
         out = []; checked = set()
@@ -501,7 +547,13 @@ def lower_search(fdef, cfg, me, repo, classdef=None):
                     models.add(t.id)
                     out.append(ast.copy_location(ast.Assign(targets=[t], value=X().visit(kws["k"])), st))
                     if t.id in late: out += stmts_of("%s__def = True\n" % t.id, st)
+                    if t.id in optmodels: out += stmts_of("%s__set = True\n%s__pre = False\n" % (t.id, t.id), st)
                     continue
+                if isinstance(t, ast.Name) and t.id in optmodels and is_none(v):
+                    out += stmts_of("%s__set = False\n%s__pre = False\n%s = 0\n" % (t.id, t.id, t.id), st); continue
+                if isinstance(t, ast.Name) and t.id in optmodels and txt(v) in cfg["presolved_models"]:
+                    if not loopvars: raise Unsupported("a kept model taken outside the loop over k", st)
+                    out += stmts_of("%s = %s\n%s__set = True\n%s__pre = True\n" % (t.id, loopvars[-1], t.id, t.id), st); continue
                 if isinstance(t, ast.Name) and t.id == enum_local and is_none(v):
                     out += stmts_of("%s = 0\n" % t.id, st); continue
                 if isinstance(t, ast.Name) and t.id in optional:
@@ -523,6 +575,8 @@ def lower_search(fdef, cfg, me, repo, classdef=None):
                     out += stmts_of(RUN, st); continue
                 if txt(c) in cfg["solved_calls"]:
                     out += stmts_of("SELF.solved = True\n", st); continue
+                if txt(c) in cfg["aux_calls"]:      # an auxiliary phase: its solver invocations are an input
+                    out += stmts_of("SELF.o_n = SELF.o_n + SELF.%s\n" % cfg["aux_calls"][txt(c)], st); continue
             if isinstance(st, ast.If):
                 k_body, k_else = known, known
                 tst = st.test
@@ -535,12 +589,16 @@ def lower_search(fdef, cfg, me, repo, classdef=None):
                     for o in optional:
                         if reads(tst, o) and o not in known: raise Unsupported("read of %r where it may be None" % o, st)
                 if tst is not None: st.test = X().visit(st.test)
-                st.body = walk(st.body, k_body, in_loop); st.orelse = walk(st.orelse, k_else, in_loop)
+                st.body = walk(st.body, k_body, in_loop) or [ast.copy_location(ast.Pass(), st)]; st.orelse = walk(st.orelse, k_else, in_loop)
                 out.append(st); continue
             if isinstance(st, (ast.For, ast.While)):
+                for key, inp in cfg["pre_for"].items():
+                    if hasattr(st, "iter") and key in txt(st.iter): out += stmts_of("SELF.o_n = SELF.o_n + SELF.%s\n" % inp, st)
+                if isinstance(st, ast.For) and isinstance(st.target, ast.Name): loopvars.append(st.target.id)
                 for fld in ("iter", "test"):
                     if hasattr(st, fld): setattr(st, fld, X().visit(getattr(st, fld)))
                 st.body = walk(st.body, set(), True); st.orelse = walk(st.orelse, set(), in_loop)
+                if isinstance(st, ast.For) and isinstance(st.target, ast.Name): loopvars.pop()
                 out.append(st); continue
             for o in optional:
                 if reads(st, o) and o not in known: raise Unsupported("read of %r where it may be None" % o, st)
